@@ -7,16 +7,16 @@ BASELINE = "cd /repo && cargo nextest run --workspace --no-fail-fast --tool-conf
 CLAIMED = {
  "C03": ("exploration", "solver-sim", "deterministic simulation: consumer stop/resume schedules at the answer-callback seam + history checks on the callback log + reference model",
          "Fresh enumeration vs. enumerations stopped at every callback position and resumed on the same solver; duplicate/flag/prefix/aggregate checks on the callback log; soundness and (for completing enumerations) completeness against Ref.",
-         "Enumerations capped at 64 callbacks; Ref over depth-2 universe; known findings F8/F10 by signature.", "§6 C03"),
+         "Enumerations capped at 64 callbacks; Ref over depth-2 universe; known findings F8/F10/F12 matched by signature (static tags).", "§6 C03"),
  "C04": ("exploration", "solver-sim", "deterministic simulation: both solvers as two servers of one perturbed history, pairwise compatibility of their answers",
          "SLG and recursive solver answer the same seeded history (warm, faulted+retried, permuted/superset DB); after every operation the latest uninterrupted answers for the goal are compared for compatibility; whole corpus + W-gen.",
-         "Lifetimes erased; instance test by one-way matching (undecided shapes never alarm).", "§6 C04"),
+         "Lifetimes erased; instance test by one-way matching (undecided shapes never alarm); answers of an interrupted solver slot are left to C11; known findings F8/F12/F19 matched by signature.", "§6 C04"),
  "C09": ("exploration", "solver-sim", "deterministic simulation: bounded liveness on the database step clock with process isolation and wall-clock guard",
          "One isolated (world, goal, solver configuration, operation) per run over W-wild, W-gen, coinductive worlds and the whole corpus with default and reduced limits; violation = step budget exhausted, wall-clock guard (re-run in isolation), abort, or an undocumented panic.",
-         "Sampling; known non-termination findings F4/F5 matched by signature computed from the run's spec.", "§6 C09"),
+         "Sampling; known non-termination findings F4/F5/F17/F21/F22 matched by signature computed from the run's spec (wall-clock guard and step budget are one class).", "§6 C09"),
  "C13": ("exploration", "solver-sim", "deterministic simulation: permutation of every database list answer (seam S1) and of the program text (items, where-clauses, fields) vs the original order",
          "Fresh answers under K presentation orders at the database seam and at the text level are compared by names with the original order's answers; limit-reached runs excluded by probe.",
-         "Lifetime-free worlds; F14 (weaker/stronger answer under clause order) matched by signature.", "§6 C13"),
+         "Lifetime-free worlds; F14 (Unique vs Ambiguous under clause order), F12 (non-linear headers), F9 matched by signature; differing guidance between two ambiguous answers is reported.", "§6 C13"),
  "C14": ("exploration", "infer-sim", "deterministic simulation: seeded operation histories on InferenceTable refined against a reference unifier",
          "After every relate of a seeded history (variables in several universes, int/float kinds, snapshots) success and the canonical state of ALL variables must equal the reference unifier's (existence of a unifier, equality, most-generality).",
          "Reference unifier is the spec; no lifetimes/aliases/binders.", "§6 C14"),
@@ -25,22 +25,22 @@ CLAIMED = {
          "Observation through public API (canonicalize, clones).", "§6 C15"),
  "C18": ("exploration", "solver-sim", "deterministic simulation: buggify-style equivalence — pre-filter skipped (superset at the database seam, could_match forced true by hook) vs filtered; seam check with the real unifier",
          "Answers under superset impls / forced could_match / both must equal the filtered answers; every impl the real impls_for_trait dropped from a real query must fail to unify with it under the real unifier.",
-         "Hook: could_match toggle (--cfg chalk_verif). Lifetime worlds: seam check only.", "§6 C18"),
+         "Hook: could_match toggle (--cfg chalk_verif). Worlds with lifetimes: answers compared modulo lifetimes (kind of answer + type-level substitution).", "§6 C18"),
  "C23": ("exploration", "solver-sim", "deterministic simulation: record through LoggingRustIrDatabase, restart from the printed text in a fresh world, replay and compare",
          "Goal sequences through one recording wrapper; at restart points the printed program is re-parsed as a new world and the prefix re-solved by fresh solvers; strict and with-stubs stages.",
-         "F6b (goal names an item no callback mentioned) matched by signature.", "§6 C23"),
+         "F6b (goal names an item no callback mentioned), F14/F12 (answer depends on the order of the logged impls) matched by signature.", "§6 C23"),
  "C27": ("fault_enumeration", "fold-sim", "deterministic fault enumeration: every fault position x mode x element kind x length of the in-place fold, drop ledger + counting allocator, Miri in the thorough tier",
          "Exhaustive in the bounded space (lengths 0..=8 quick / 0..=24 thorough, all positions, Err and panic, five element kinds, Vec and Box); thorough additionally under Miri.",
-         "Hook: re-export of the in-place routines (--cfg chalk_verif).", "§6 C27"),
+         "Hook: re-export of the in-place routines (--cfg chalk_verif). A fold process killed by a signal is a violation, not a harness error.", "§6 C27"),
  "C28": ("exploration", "solver-sim", "deterministic simulation: structural monitor on every response of perturbed histories (interrupted, recovered, enumerated)",
          "Every returned solution / enumerated answer of seeded histories (incl. Suggested guidance after interruptions, answers after recovered panics) is checked structurally against its query.",
-         "Structural only; truth is C01's subject.", "§6 C28"),
+         "Structural only (scope and kind of every bound variable incl. binders opened inside the value: fn pointers, dyn); truth is C01's subject.", "§6 C28"),
  "C01": ("exploration", "solver-sim", "deterministic simulation: reference-model conformance of every response in perturbed histories (warm state, interruptions, recovered panics, permuted/superset database answers)",
          "Every answer of seeded simulated histories on fragment worlds is judged against Ref, an independent three-valued model of the program's logical meaning. The simulator contributes the contexts (warm, interrupted, after a recovered panic, permuted DB); the input quantifier is sampled by W-gen. Sampling, not proof.",
-         "Trusts Ref (sim/src/reference.rs) and the bounded universe (depth 2) for goals with unknowns; known findings F8/F10 (SLG coinduction) matched by signature.", "§6 C01"),
+         "Trusts Ref (sim/src/reference.rs) and the bounded universe (depth 2) for goals with unknowns; known findings F8/F10 (SLG coinduction), F12 (non-linear headers) matched by signature.", "§6 C01"),
  "C02": ("exploration", "solver-sim", "deterministic simulation: per-run randomised solver limits (swarm knobs) + reference-model conformance on closed goals",
          "Closed goals of size-decreasing fragment worlds under limits drawn between the bound Ref measured and the defaults; answers must be definite and equal Ref; limit-reached runs excluded.",
-         "Trusts Ref; limit-reached detection is by comparison with the default-limit answer and the documented overflow panic; known finding F9 matched by signature.", "§6 C02"),
+         "Trusts Ref; limit-reached is decided by Ref's own measurement of the derivation (largest type, deepest stack; unbounded for goals refuted by the infinite-regress rule), not by chalk's truncation; known finding F9 matched by signature.", "§6 C02"),
  "C05": ("exploration", "solver-sim", "deterministic simulation: histories over all members of coinductive cycles on warm solvers vs greatest-fixed-point reference model and fresh solver",
          "Worlds with auto/#[coinductive] traits and recursive structs; every cycle member posed in PRNG order on warm solvers; answers must equal Ref (gfp) and a fresh solver.",
          "Trusts Ref; SLG incompleteness on multi-member cycles (F8) matched by signature, its coverage loss is reported in the evidence.", "§6 C05"),
@@ -53,7 +53,7 @@ CLAIMED = {
          "Trusts: SimDb delegation, strict Solution equality as oracle, corpus+W-gen as workload.", "§6 C10"),
  "C11": ("fault_enumeration", "solver-sim", "deterministic simulation: enumeration of interruption schedules at the should_continue seam + follow-up histories",
          "For each sampled (world, goal, solver) every one-shot and from-k-onwards interruption point up to a cap is executed, plus periodic/always/coin schedules, each followed by further solves on the same solver; oracle = safe approximation + later answers equal fresh.",
-         "Exhaustive only over interruption points of the sampled inputs up to the cap; C01-fragment worlds only.", "§6 C11"),
+         "Exhaustive only over interruption points of the sampled inputs up to the cap; C01-fragment worlds only; definite guidance of an interrupted solve that the full answer does not back is judged by Ref.", "§6 C11"),
  "C12": ("fault_enumeration", "solver-sim", "deterministic simulation: crash-point enumeration (n-th database callback unwinds) + follow-up histories",
          "For each sampled (world, goal, solver) every database call up to a cap is made to unwind (optionally a second panic during the retry), then the same solver instance is asked again; oracle = no panic and answers equal fresh.",
          "Exhaustive only over crash points of the sampled inputs up to the cap; C01-fragment worlds only.", "§6 C12"),
